@@ -94,14 +94,13 @@ func c11Framing(c *kit.Ctx, k *keyer, env *c11Env) {
 				return
 			}
 			key := k.key(fn, "framed write")
-			b := c11BytesOf(arg)
-			nb, _ := b.(*ssa.Call)
-			if nb == nil || !c11IsStatic(&nb.Call, "bytes", "", "NewBuffer") {
-				c.Bad("R11.3", key, posOf(w), "conn.Write(%s): neither the frame buffer (buf.Bytes() of a bytes.NewBuffer) nor a zero keep-alive: bytes that bypass the framing", kit.Canon(arg))
+			fr, why := c11ResolveFrame(c, w)
+			if fr == nil {
+				c.Bad("R11.3", key, posOf(w), "conn.Write(%s): neither the frame buffer (buf.Bytes() of a bytes.NewBuffer, built here or by a same-package encoder) nor a zero keep-alive: bytes that bypass the framing%s", kit.Canon(arg), why)
 				return
 			}
 			nFramed++
-			if bad := c11CheckFrame(c, fn, w, nb, env); len(bad) > 0 {
+			if bad := append(fr.callerBad, c11CheckFrame(c, fr, env)...); len(bad) > 0 {
 				c.Bad("R11.3", key, posOf(w), "%s", strings.Join(bad, "; "))
 			} else {
 				c.OK("R11.3", key, posOf(w), "empty buffer, 5 bytes reserved before serialisation, [0:4] = BigEndian uint32(1 + n of WriteTo/ReadFrom of this message), [4] = msg.ID(), the same buffer is written")
@@ -162,7 +161,119 @@ func c11Framing(c *kit.Ctx, k *keyer, env *c11Env) {
 	}
 }
 
-func c11CheckFrame(c *kit.Ctx, mw *ssa.Function, w *ssa.Call, nb *ssa.Call, env *c11Env) (bad []string) {
+// c11Frame is a frame buffer (a bytes.NewBuffer) together with the program
+// points at which it must be complete: the conn.Write itself when the buffer
+// is built in the writing function, or the returns of the same-package
+// encoder that hand it out.
+type c11Frame struct {
+	nb        *ssa.Call         // the bytes.NewBuffer call
+	w         *ssa.Call         // the conn.Write
+	finals    []ssa.Instruction // in nb's function
+	via       *ssa.Call         // the call of the encoder in the writing function (nil: built in place)
+	callerBad []string          // complaints about what the writing function does with the returned buffer
+}
+
+// dominatesFinals: ins dominates every point at which the frame must be complete.
+func (fr *c11Frame) dominatesFinals(ins ssa.Instruction) bool {
+	for _, f := range fr.finals {
+		if !kit.Dominates(ins, f) {
+			return false
+		}
+	}
+	return len(fr.finals) > 0
+}
+
+// msgInWriter maps the message value serialised into the frame (a value of
+// nb's function) to the corresponding value of the writing function.
+func (fr *c11Frame) msgInWriter(msg ssa.Value) ssa.Value {
+	if fr.via == nil || msg == nil {
+		return msg
+	}
+	p, ok := msg.(*ssa.Parameter)
+	if !ok {
+		return nil
+	}
+	for i, q := range p.Parent().Params {
+		if q == p && i < len(fr.via.Call.Args) {
+			return c11IfaceRoot(fr.via.Call.Args[i])
+		}
+	}
+	return nil
+}
+
+// c11ResolveFrame finds the frame buffer whose bytes conn.Write w sends.
+func c11ResolveFrame(c *kit.Ctx, w *ssa.Call) (*c11Frame, string) {
+	b := c11BytesOf(w.Call.Args[0])
+	if b == nil {
+		return nil, ""
+	}
+	if nb, ok := b.(*ssa.Call); ok && c11IsStatic(&nb.Call, "bytes", "", "NewBuffer") {
+		return &c11Frame{nb: nb, w: w, finals: []ssa.Instruction{w}}, ""
+	}
+	// result of a same-package encoder
+	var call *ssa.Call
+	idx := 0
+	switch x := b.(type) {
+	case *ssa.Extract:
+		call, _ = x.Tuple.(*ssa.Call)
+		idx = x.Index
+	case *ssa.Call:
+		if x.Call.Signature().Results().Len() == 1 {
+			call = x
+		}
+	}
+	if call == nil {
+		return nil, ""
+	}
+	h := call.Call.StaticCallee()
+	if h == nil || h.Blocks == nil || pkgOf(h) != pkgOf(w.Parent()) {
+		return nil, ""
+	}
+	fr := &c11Frame{w: w, via: call}
+	for _, r := range returnsOf(h) {
+		if r.Block() == h.Recover || idx >= len(r.Results) {
+			continue
+		}
+		for _, src := range boolSources(r.Results[idx]) {
+			if k, ok := src.V.(*ssa.Const); ok && k.IsNil() {
+				continue // no buffer (returned together with the serialisation error)
+			}
+			nb, ok := src.V.(*ssa.Call)
+			if !ok || !c11IsStatic(&nb.Call, "bytes", "", "NewBuffer") || (fr.nb != nil && fr.nb != nb) {
+				return nil, "; " + kit.FuncName(h) + " does not return one bytes.NewBuffer"
+			}
+			fr.nb = nb
+			fr.finals = append(fr.finals, r)
+		}
+	}
+	if fr.nb == nil {
+		return nil, ""
+	}
+	// the writing function only measures and writes the returned buffer
+	for _, r := range *b.Referrers() {
+		switch x := r.(type) {
+		case *ssa.DebugRef:
+		case *ssa.Call:
+			switch {
+			case c11IsBufMethod(&x.Call, b, "Len"):
+			case c11IsBufMethod(&x.Call, b, "Bytes"):
+				for _, r2 := range *x.Referrers() {
+					if _, dbg := r2.(*ssa.DebugRef); !dbg && r2 != ssa.Instruction(w) {
+						fr.callerBad = append(fr.callerBad, fmt.Sprintf("bytes of the encoded frame also used by %s", r2))
+					}
+				}
+			default:
+				fr.callerBad = append(fr.callerBad, fmt.Sprintf("encoded frame buffer passed to %s before it is written", kit.Canon(x)))
+			}
+		default:
+			fr.callerBad = append(fr.callerBad, fmt.Sprintf("encoded frame buffer used by %s before it is written", r))
+		}
+	}
+	return fr, ""
+}
+
+func c11CheckFrame(c *kit.Ctx, fr *c11Frame, env *c11Env) (bad []string) {
+	nb, w := fr.nb, fr.w
 	buf := ssa.Value(nb)
 	// 1. empty initial content
 	// (a parameter of a helper stands for the argument at each of its call sites)
@@ -235,6 +346,17 @@ func c11CheckFrame(c *kit.Ctx, mw *ssa.Function, w *ssa.Call, nb *ssa.Call, env 
 				}
 			}
 		case *ssa.DebugRef:
+		case *ssa.Return:
+			// handed out by the encoder: one of the points at which the frame must be complete
+			isFinal := false
+			for _, f := range fr.finals {
+				if f == ssa.Instruction(x) {
+					isFinal = true
+				}
+			}
+			if !isFinal {
+				bad = append(bad, fmt.Sprintf("frame buffer returned by %s", kit.FuncName(x.Parent())))
+			}
 		default:
 			bad = append(bad, fmt.Sprintf("frame buffer used by %s", r))
 		}
@@ -327,7 +449,7 @@ func c11CheckFrame(c *kit.Ctx, mw *ssa.Function, w *ssa.Call, nb *ssa.Call, env 
 				}
 			}
 		}
-		if !kit.Dominates(p, w) {
+		if !fr.dominatesFinals(p) {
 			bad = append(bad, "conn.Write not dominated by the length patch")
 		}
 	}
@@ -340,7 +462,7 @@ func c11CheckFrame(c *kit.Ctx, mw *ssa.Function, w *ssa.Call, nb *ssa.Call, env 
 		if !ok || !call.Call.IsInvoke() || call.Call.Method.Name() != "ID" || c11IfaceRoot(call.Call.Value) != msg {
 			bad = append(bad, fmt.Sprintf("frame byte [4] = %s, must be ID() of the message that was serialised", kit.Canon(st.Val)))
 		}
-		if !kit.Dominates(st, w) {
+		if !fr.dominatesFinals(st) {
 			bad = append(bad, "conn.Write not dominated by the id patch")
 		}
 	}
@@ -401,12 +523,11 @@ func c11UploadCounter(c *kit.Ctx, k *keyer, env *c11Env) {
 			c.Bad("R11.6", key, posOf(s.Instr), "countUploadBytes(%s): the argument is not the n returned by p.conn.Write", kit.Canon(arg))
 			continue
 		}
-		nb, _ := c11BytesOf(w.Call.Args[0]).(*ssa.Call)
 		var msg ssa.Value
-		if nb != nil {
-			for _, r := range *nb.Referrers() {
-				if call, ok := r.(*ssa.Call); ok && c11IsBufMethod(&call.Call, nb, "ReadFrom") {
-					msg = c11IfaceRoot(call.Call.Args[1])
+		if fr, _ := c11ResolveFrame(c, w); fr != nil {
+			for _, r := range *fr.nb.Referrers() {
+				if call, ok := r.(*ssa.Call); ok && c11IsBufMethod(&call.Call, fr.nb, "ReadFrom") {
+					msg = fr.msgInWriter(c11IfaceRoot(call.Call.Args[1]))
 				}
 			}
 		}
